@@ -128,6 +128,22 @@ def run():
 
 
 run()
+# ---- the projection as implemented by the Secular mix-in -------------------------------------------------------------------------
+try:
+    from quantarhei.qm.liouvillespace.secular import Secular
+
+    class _Sec(Secular):
+        pass
+    rng_ = numpy.random.default_rng(5)
+    for shape in ((3, 3, 3, 3), (2, 3, 3, 3, 3)):
+        o = _Sec.__new__(_Sec)
+        o.as_operators = False
+        o.data = rng_.standard_normal(shape) + 1j * rng_.standard_normal(shape)
+        before = o.data.copy()
+        o._secularize_data()
+        secular_ok(before, o.data, "Secular._secularize_data on a %d-index array" % len(shape))
+except Exception as e:      # noqa
+    bad.append("Secular._secularize_data raised %s: %s" % (type(e).__name__, str(e)[:120]))
 for b in bad:
     print("VIOLATED:", b)
 print("C01 oracle: %d violations" % len(bad))
